@@ -147,11 +147,11 @@ package memberlist
 //@   requires me: me != nil && has(m.nodeMap, m.config.Name) && me == m.nodeMap[m.config.Name]
 //@   requires n9: !$wrapped ==> me.Incarnation <= m.incarnation
 //@   assigns nodeState.Incarnation, Memberlist.incarnation, awareness.score, $bq, $wrapped
-//@   ensures above [C02]: accusedInc < 4294967295 && !$wrapped ==> me.Incarnation > accusedInc
+//@   ensures above [C02,C08]: accusedInc < 4294967295 && !$wrapped ==> me.Incarnation > accusedInc
 //@   ensures up [C01,C02]: !$wrapped ==> me.Incarnation > old(me.Incarnation) && me.Incarnation <= m.incarnation
 //@   ensures wrapmono: old($wrapped) ==> $wrapped
 //@   ensures frame [C01]: forall p *nodeState :: p != me ==> p.Incarnation == old(p.Incarnation)
-//@   ensures bq [C02]: $bq == snoc(old($bq), Bq(ext("(net.IP).String", me.Addr), aliveMsg, me.Incarnation, me.Name, "", 0))
+//@   ensures bq [C02,C08]: $bq == snoc(old($bq), Bq(ext("(net.IP).String", me.Addr), aliveMsg, me.Incarnation, me.Name, "", 0))     // the record carries the incarnation that was announced: a later departure (Leave reads the record) outranks it
 
 // ---------------------------------------------------------------------
 // State functions (C01, C02, C06, C07, C08)
